@@ -132,7 +132,8 @@ Record cfg := mkCfg {
   v5 : bool; max_qos : N; rmax : N; amax : N; lcap : N; pmode : N;
   role : N;                          (* 0 = server, 1 = client *)
   route : bool;                      (* client: ClientRouter with resources t1, t2 *)
-  zse : bool }.                      (* v5 server: the CONNECT asked for session expiry 0 (Flags::ZERO_SES_EXPIRY) *)
+  zse : bool;                        (* v5 server: the CONNECT asked for session expiry 0 (Flags::ZERO_SES_EXPIRY) *)
+  hqad : N }.                        (* MqttServiceConfig::handle_qos_after_disconnect: 0 = None, q + 1 = Some(q) *)
 
 Record pst := mkPst {               (* protocol state: dispatcher.rs Inner / PublishInfo, shared flags *)
   inflight : list N; publishes : list N; pubrel : list N; aliases : list (N * N);
@@ -467,7 +468,10 @@ Definition body5 (p : pkt) (s : st) : st * outcome :=
         | (s2, None) => (s2, proto_err 148)
         | (s2, Some t) =>
           if t =? 99 then (s2, proto_err 130)
-          else if is_closed s2 then (s2, ODone RNone)
+          else if is_closed s2 then
+            (* dropped, unless handle_qos_after_disconnect = Some(q) with qos <= q *)
+            if (hqad (c_ s2) =? 0) || (hqad (c_ s2) <=? qos) then (s2, ODone RNone)
+            else (s2, OHandler (b2n (qos =? 2)) qos id (if t <=? 3 then t else 0) plen retain)
           else (s2, OHandler (b2n (qos =? 2)) qos id (if t <=? 3 then t else 0) plen retain)
         end
       end
@@ -1331,7 +1335,7 @@ Definition init_st (is5 : bool) (cf : list N) : st :=
                  (if is5 then (if a 1%nat =? 0 then 16 else a 1%nat) else 0)
                  (a 2%nat)
                  (if is5 then 0 else a 3%nat)
-                 (a 4%nat) 0 false (a 5%nat =? 0) in
+                 (a 4%nat) 0 false (a 5%nat =? 0) (a 6%nat) in
   mkSt c
        (mkPst [] [] [] [] false false)
        (mkBst [] 0 None true None 0 None None [] [] None)
@@ -1361,7 +1365,7 @@ Definition init_st_cli (is5 : bool) (cf : list N) : st :=
                  (if is5 then (if a 0%nat =? 0 then 65535 else a 0%nat) else 0)
                  16
                  (if is5 then 0 else (if a 0%nat =? 0 then 16 else a 0%nat))
-                 1 1 (a 1%nat =? 1) true in
+                 1 1 (a 1%nat =? 1) true 0 in
   mkSt c (p_ s) (b_ s) (i_ s) (s_ s) (l_ s) (q_ s).
 
 Definition run_cli (is5 : bool) (c : list (list N)) : list (list N) :=
